@@ -264,7 +264,7 @@ def run(ctx):
                                argument='structural induction: every compound shape over letters terminates and '
                                         'rule output is uniform in the operands (concrete runs, not solver-decided)'),
         bounds=dict(family='P(0), P(1) complete, 100 of P(2) per logic by seed, 342 depth-1 pairs (default options)' if ctx.quick
-                    else 'P(0), P(1) complete, 6000 of P(2) and 1500 of P(3) per logic by seed',
+                    else 'P(0), P(1) complete, 3000 of P(2) and 800 of P(3) per logic by seed',
                     letters='<= 3', premises='<= 2', options='both optimisation flags symbolic (4 paths) on P(0), P(1) (thorough: everywhere); default otherwise',
                     order_seed=ctx.seed),
         solver=stats.asdict(),
